@@ -110,11 +110,17 @@ class Interp:
     def make_function(self, node, module, closure, cls):
         f = VFunc(node, module, closure, cls)
         for d in getattr(node, "decorator_list", []):
+            if isinstance(d, ast.Call):          # @functools.lru_cache(maxsize=None)
+                d = d.func
             dn = d.id if isinstance(d, ast.Name) else (d.attr if isinstance(d, ast.Attribute) else None)
             if dn in ("staticmethod", "classmethod", "property"):
                 f.kind = dn
             elif dn in ("abstractmethod",):
                 pass
+            elif dn in ("lru_cache", "cache"):
+                # functools memoisation (unbounded or not: an entry that is still there is returned without running the body;
+                # modelled unbounded, i.e. every earlier result of this path is still there)
+                f.memoized = True
             else:
                 f.kind = "decorated:" + str(dn)
         return f
@@ -626,6 +632,25 @@ class Interp:
             return contract(self, args, kwargs)
         if f.kind.startswith("decorated:"):
             raise Unsupported("decorated function %s" % qn)
+        if getattr(f, "memoized", False) and not getattr(f, "_in_memo_call", False):
+            def keyof(v):
+                if isinstance(v, (str, int, float, bool, type(None))):
+                    return ("v", v)
+                lab = getattr(v, "label", None)
+                if isinstance(lab, str):
+                    return ("label", type(v).__name__, lab)
+                return ("id", id(v))
+            key = (tuple(keyof(a) for a in args), tuple(sorted((k, keyof(v)) for k, v in kwargs.items())))
+            memo = f.__dict__.setdefault("_memo", {})
+            if key in memo:
+                return memo[key]
+            f._in_memo_call = True
+            try:
+                r = self.call_function(f, args, kwargs, bypass_contract=True)
+            finally:
+                f._in_memo_call = False
+            memo[key] = r
+            return r
         self.depth += 1
         if self.depth > self.max_depth:
             self.depth -= 1
